@@ -58,8 +58,9 @@ def walret_oracle(script, impl):
         elif ws[0] == 'retain':
             kv = _kv(ws[1:])
             count, maxage, minseq = int(kv['count']), int(kv['maxage']), int(kv['minseq'])
-            ages = [int(x) for x in kv['ages'].split(',')]
+            ages = [int(x) for x in kv['ages'].split(',') if x]
             closed = files[:-1]
+            ages += [0] * (len(closed) - len(ages))      # a shrunk script may name fewer ages than there are files (the harness uses 0)
             if len(files) <= 1:
                 want = []
             else:
